@@ -234,6 +234,28 @@ func EmitThen(e Event, then func()) {
 	}, false)
 }
 
+// EmitF is the general form: the ticket is enabled when cond holds (nil =
+// always); at the release, fill completes the event in the scheduler (the one
+// place where harness state shared between tasks may be read and written),
+// then the event is appended.
+func EmitF(e Event, cond func() bool, fill func(e *Event)) {
+	s := cur
+	var t *task
+	if s != nil {
+		t = s.taskOf()
+	}
+	if t == nil {
+		panic("simrt.EmitF outside a simulated task")
+	}
+	e.Task = t.id
+	s.yieldT(t, "ev:"+e.Kind, cond, func() {
+		if fill != nil {
+			fill(&e)
+		}
+		s.appendEvent(&e)
+	}, false)
+}
+
 // EmitWhen is EmitThen with an enabling condition (a gate).
 func EmitWhen(e Event, cond func() bool, then func()) {
 	s := cur
